@@ -645,7 +645,8 @@ func c01tSize(rng *rand.Rand) int {
 }
 
 // c01tMakeTree: kind 0 = flat files; 1 = directory mode without children (an empty
-// directory and files: never an archive); 2 = directory mode with a nested tree; 3 = flat,
+// directory and files: never an archive); 2 = directory mode with a nested tree (an empty
+// directory, files at three depths, one of them empty); 3 = flat,
 // one file of about 128 KiB
 func c01tMakeTree(rng *rand.Rand, root string, kind int, bigKind int) []string {
 	var tops []string
@@ -701,6 +702,7 @@ func c01tMakeTree(rng *rand.Rand, root string, kind int, bigKind int) []string {
 		os.MkdirAll(filepath.Join(d, "e"), 0755)
 		mk(filepath.Join(d, "t.bin"), []int{1, 511, 512, 513, 600 + rng.Intn(5400)}[rng.Intn(5)], 3)
 		mk(filepath.Join(d, "sub", "n n.txt"), c01tSize(rng), rng.Intn(4))
+		mk(filepath.Join(d, "sub", "deep", "zero"), 0, 0) // an empty file two levels down
 		tops = []string{d}
 		if rng.Intn(2) == 0 {
 			p := filepath.Join(root, "s", "solo.dat")
